@@ -4,19 +4,23 @@ from __future__ import annotations
 import ast
 
 from .. import astutil as A
+from .. import sym as S
 from ..core import AnalysisError, Collector
 from ..dataflow import MUTATORS
-from .common import FnCtx, fnctx, has_guard, is_method_call, is_self_call
+from .common import SCtx, sctx
+from .c07 import DATA, INDEX, tctx
 
 PROP = "C14"
-FLOORS = {"C14.R1": 5, "C14.R2": 6, "C14.R3": 4, "C14.R4": 5, "C14.R5": 10, "C14.R6": 4}
+FLOORS = {"C14.R1": 5, "C14.R2": 8, "C14.R3": 4, "C14.R4": 5, "C14.R5": 10, "C14.R6": 4}
 META = {
-    "explanation": "Escape/alias analysis of column lists and data dictionaries into unverified (verify=False) constructors: the list "
-                   "handed over is fresh, never the source's own `_col_names` / `_data`; each derivation applies one selector to every "
-                   "listed column and carries the scalar (non-column) entries over; the index column is forced into the derived column "
-                   "list; every `self.<attr>` read in the table module's classes resolves to a declared attribute; derivation methods "
-                   "never call a mutator on the source's column list or data; the checked constructor tests lengths over the column list "
-                   "and the index against the column list.",
+    "explanation": "Escape/alias analysis on symbolic terms of the column lists and data dictionaries that reach unverified "
+                   "(verify=False) constructors: the list handed over is fresh, never the source's own `_col_names` / `_data`; each "
+                   "derivation applies one selector to every listed column and carries the scalar (non-column) entries over; row "
+                   "repetition / concatenation joins along the row axis; the index column is forced into the derived column list; a "
+                   "column or expression is read from the current data on every access (nothing remembered per expression); every "
+                   "`self.<attr>` read in the table module's classes resolves to a declared attribute; derivation methods never "
+                   "mutate the source's column list or data; the checked constructor tests lengths over the column list and the index "
+                   "against the column list.",
     "decides": "no sharing of mutable structure between source and derived table; uniform selection; attribute existence; constructor checks",
     "not_decided": "lengths and values for all tables; sharing of numpy buffers between source and views (numpy semantics)",
     "assumptions": ["numpy fancy indexing returns arrays of the index's length"],
@@ -25,179 +29,279 @@ META = {
 DERIVATIONS = [("Table", "_select"), ("Table", "_select_rows"), ("Table", "_select_cols"), ("Table", "__add__"), ("Table", "__mul__"),
                ("Table", "_copy"), ("Table", "_t"), ("Table", "concatenate"), ("_RowView", "_make_view"), ("_RowView", "__getitem__"),
                ("_ColView", "__getitem__"), ("Table", "__neg__"), ("_RowView", "reverse"), ("_RowView", "head"), ("_RowView", "tail")]
+NAMES = S.sattr("_col_names")
+NP = ("glob", "np")
 
 
-def _fresh(expr, cx: FnCtx, at: int, depth=0) -> bool:
-    """expr denotes a freshly created list/dict (not an object reachable from an existing table)"""
-    if isinstance(expr, (ast.List, ast.ListComp, ast.Dict, ast.DictComp)):
+def fresh(t) -> bool:
+    """term denotes a newly created container (not an object reachable from an existing table)"""
+    if t[:1] == ("alt",):
+        return all(fresh(a) for a in t[1])
+    if t[:1] in (("acc",), ("list",), ("dict",), ("tuple",), ("set",)):
         return True
-    if isinstance(expr, ast.Call):
-        n = A.call_name(expr)
-        if n in ("list", "dict", "sorted", "tuple") :
+    if S.is_call_of(t):
+        f = t[1]
+        if f in (("glob", "list"), ("glob", "dict"), ("glob", "sorted"), ("glob", "tuple"), ("glob", "set"), ("glob", "_View")):
             return True
-        if isinstance(expr.func, ast.Attribute) and expr.func.attr in ("copy", "split"):
+        if f[:1] == ("attr",) and f[2] in ("copy", "split"):
             return True
-        if n == "_View":
-            return True
-    if isinstance(expr, ast.Name) and depth < 3:
-        ds = cx.defs(expr.id, at)
-        strong = [d for d in ds if d.kind == "assign"]
-        if not strong or any(d.kind in ("param",) for d in ds):
-            return False
-        return all(_fresh(d.value, cx, d.nid, depth + 1) for d in strong)
     return False
+
+
+def _ctor_calls(sx: SCtx):
+    """constructor calls of a Table: Table(...), cls(...), self.__class__(...)"""
+    out = []
+    for ev in sx.events:
+        if ev.kind != "call":
+            continue
+        for a in S.alts(ev.term):
+            f = a[1]
+            if f in (("glob", "Table"), ("attr", S.SELF, "__class__")) or (f[:1] == ("param",) and f[2] == "cls") or \
+                    (f[:1] == ("attr",) and f[2] == "__class__"):
+                out.append((ev, a))
+    return out
+
+
+def _table_methods(repo):
+    m = repo.module("table")
+    for cname, c in m.classes.items():
+        seen = set()
+        for name, fn in c.methods.items():
+            if id(fn) in seen or name in c.properties and False:
+                continue
+            seen.add(id(fn))
+            yield m, c, name, fn
 
 
 def _no_aliasing(col, rule="C14.R1"):
     repo = col.repo
-    m = repo.module("table")
     n = 0
-    for mod, c, fn in repo.all_functions():
-        if mod is not m or c is None:
+    for m, c, name, fn in _table_methods(repo):
+        if not any(isinstance(x, ast.Call) for x in A.walk(fn)):
             continue
-        cx = None
-        for call in A.calls(fn):
-            nm = A.call_name(call) or ""
-            is_ctor = nm in ("Table", "cls", "self.__class__") or nm.endswith(".__class__")
-            if not is_ctor:
+        src = A.src(fn)
+        if "verify" not in src:
+            continue
+        sx = tctx(repo, name, c.name)
+        for ev, a in _ctor_calls(sx):
+            kws = dict(a[3])
+            if kws.get("verify") != ("const", "False"):
                 continue
-            kws = {k.arg: k.value for k in call.keywords}
-            unverified = "verify" in kws and A.is_const(kws["verify"], False)
-            if not unverified:
-                continue
-            cx = cx or FnCtx(mod, c, fn)
-            at = cx.cfg.containing(call)
             n += 1
+            q = f"{c.name}.{name}"
             cn = kws.get("col_names")
-            q = f"{c.name}.{fn.name}"
-            okc = cn is not None and _fresh(cn, cx, at)
-            col.add(rule, f"{q}#fresh-column-list", okc, mod.loc(call),
+            col.add(rule, f"{q}#fresh-column-list", cn is not None and fresh(cn), sx.loc(ev),
                     "the column list given to an unverified constructor is a fresh list (the derived table's column list is its own: "
-                    "adding/removing/reordering columns there must not change the source)", A.src(cn))
-            data = call.args[0] if call.args else kws.get("data")
-            okd = data is not None and _fresh(data, cx, at)
-            col.add(rule, f"{q}#fresh-data-dict", okd, mod.loc(call),
-                    "the data mapping given to an unverified constructor is a fresh dict/view, not the source's own `_data`", A.src(data))
+                    "adding/removing/reordering columns there must not change the source)", S.show(cn)[:100] if cn is not None else "none")
+            data = a[2][0] if a[2] else kws.get("data")
+            col.add(rule, f"{q}#fresh-data-dict", data is not None and fresh(data), sx.loc(ev),
+                    "the data mapping given to an unverified constructor is a fresh dict/view, not the source's own `_data`",
+                    S.show(data)[:100] if data is not None else "none")
     col.count("unverified_constructor_calls", n)
-    # verified constructor copies what it is given
-    cx = fnctx(repo, "Table", "__init__")
-    txt_ok = not A.has_fragments(cx.fn, ["{L} = {P1}.copy()", "{L} = list("])
-    col.add(rule, "Table.__init__#verified-branch-copies", txt_ok, cx.loc(cx.fn),
-            "the checked constructor copies the data mapping and builds its own column list", "")
-    # _copy
-    cx = fnctx(repo, "Table", "_copy")
-    call = [c for c in A.calls(cx.fn) if (A.call_name(c) or "").endswith("__class__") or A.call_name(c) == "Table"]
-    ok = len(call) == 1 and call[0].args and A.src(call[0].args[0]) == "self._data.copy()"
-    col.add(rule, "Table._copy#copies-data-dict", ok, cx.loc(cx.fn), "_copy hands a copy of the data mapping to the constructor", "")
+    # what the constructor stores: verified -> copies; unverified -> as given (which is why the callers must pass fresh objects)
+    sx = tctx(repo, "__init__")
+    data_p, names_p = sx.pnamed("data"), sx.pnamed("col_names")
+    stored = {}
+    for ev in sx.events:
+        for tm in ([ev.term] if ev.kind == "call" else [x for x in (ev.value,) if x is not None]):
+            for s_ in S.subterms(tm):
+                pairs = []
+                if s_[:1] == ("dict",):
+                    pairs = list(s_[1])
+                elif s_[:1] == ("acc",) and s_[1] == "dict":
+                    pairs = [(c_[2], c_[3]) for c_ in s_[2] if c_[0] == "kv"]
+                for k, v in pairs:
+                    if k in (("const", repr("_data")), ("const", repr("_col_names"))):
+                        stored[k[1].strip("'\"")] = v
+    okv = "_data" in stored and "_col_names" in stored
+    if okv:
+        okv = all(a == data_p or fresh(a) or (a[:1] == ("acc",)) for a in S.alts(stored["_data"])) and \
+            any(a != data_p for a in S.alts(stored["_data"])) and \
+            all(a == names_p or fresh(a) for a in S.alts(stored["_col_names"])) and any(a != names_p for a in S.alts(stored["_col_names"]))
+    col.add(rule, "Table.__init__#verified-branch-copies", okv, sx.loc(sx.fn),
+            "the checked constructor copies the data mapping and builds its own column list", str({k: S.show(v)[:80] for k, v in stored.items()}))
+    sx = tctx(repo, "_copy")
+    calls = _ctor_calls(sx)
+    ok = len(calls) == 1 and calls[0][1][2] and calls[0][1][2][0] == S.mcall(DATA, "copy")
+    col.add(rule, "Table._copy#copies-data-dict", ok, sx.loc(sx.fn), "_copy hands a copy of the data mapping to the constructor",
+            S.show(calls[0][1])[:100] if calls else "")
+    if calls:
+        kws = dict(calls[0][1][3])
+        verified = kws.get("verify") in (None, ("const", "True"))
+        cn = kws.get("col_names")
+        col.add(rule, "Table._copy#own-column-list", verified or (cn is not None and fresh(cn)), sx.loc(sx.fn),
+                "the copy gets its own column list (the checked constructor builds one; an unverified one must be given a fresh list)",
+                f"verify={S.show(kws.get('verify')) if kws.get('verify') else 'default'}, col_names={S.show(cn) if cn else None}")
+
+
+def _data_arg_contribs(sx: SCtx):
+    """kv contributions of the dict handed to the constructor in the returned table"""
+    out = []
+    for r in sx.of_kind("return"):
+        for a in S.alts(r.value):
+            if S.is_call_of(a) and a[2] and a[2][0][:1] == ("acc",) and a[2][0][1] == "dict":
+                out.append((r, [c for c in a[2][0][2] if c[0] == "kv"]))
+    return out
 
 
 def _uniform(col, rule="C14.R2"):
     repo = col.repo
-    for meth, sel in (("_select_rows", "self._data[{L}][{P1}]"), ("_select_cols", "self[{L}]"), ("_select", "{L}[{L}]")):
-        cx = fnctx(repo, "Table", meth)
-        missing = A.has_fragments(cx.fn, [sel, "self.keys(exclude_columns=True)", "{L}[{L}] = self._data[{L}]"])
-        col.add(rule, f"Table.{meth}#columns-and-scalars", not missing, cx.loc(cx.fn),
-                "every listed column gets the same selection and the scalar (non-column) entries are carried over", f"missing: {missing}")
-        # loop over the column list is unconditional
-        loops = [n for n in A.walk(cx.fn) if isinstance(n, ast.For) and any(
-            isinstance(x, ast.Assign) and isinstance(x.targets[0], ast.Subscript) and A.target_names(n.target) == [A.dotted(x.targets[0].slice)]
-            for x in A.walk(n))]
-        cond = [n for l in loops for n in A.walk(l) if isinstance(n, (ast.If, ast.Break, ast.Continue))]
-        col.add(rule, f"Table.{meth}#no-column-skipped", not cond, cx.loc(cx.fn), "no column of the list is skipped", f"{len(cond)} conditionals in the loops")
-    cx = fnctx(repo, "Table", "keys")
-    ok = not A.has_fragments(cx.fn, ["set(self._data) - set(self._col_names)"])
-    col.add(rule, "Table.keys#scalars=data-minus-columns", ok, cx.loc(cx.fn), "the scalar entries are the data keys that are not columns", "")
-    for meth, frag in (("__mul__", "np.concatenate([{L}._data[{L}]] * {P1})"), ("_concatenate_table", "np.concatenate([self._data[{L}], {P1}._data[{L}]])")):
-        cx = fnctx(repo, "Table", meth)
-        missing = A.has_fragments(cx.fn, [frag])
-        loops = [n for n in A.walk(cx.fn) if isinstance(n, ast.For) and A.src(n.iter).endswith("._col_names")]
-        col.add(rule, f"Table.{meth}#every-column", not missing and len(loops) == 1, cx.loc(cx.fn),
-                "repetition/concatenation is applied to every column of the column list", f"missing: {missing}")
-    cx = fnctx(repo, "Table", "__add__")
-    ok = not A.has_fragments(cx.fn, ["{L} = self._copy()", "{L}._concatenate_table({P1})"])
-    col.add(rule, "Table.__add__#on-a-copy", ok, cx.loc(cx.fn), "`+` concatenates onto a copy of the left table", "")
-    cx = fnctx(repo, "Table", "__mul__")
-    ok = not A.has_fragments(cx.fn, ["{L} = self._copy()"])
-    col.add(rule, "Table.__mul__#on-a-copy", ok, cx.loc(cx.fn), "`*` repeats a copy", "")
-    cx = fnctx(repo, "Table", "__len__")
-    ok = not A.has_fragments(cx.fn, ["self._col_names[0]", "len(self._data[{L}])"])
-    col.add(rule, "Table.__len__#length-of-first-column", ok, cx.loc(cx.fn), "len(table) is the length of a listed column", "")
+    scal = ("elem", ("call", ("attr", S.SELF, "keys"), (), (("exclude_columns", ("const", "True")),)))
+    specs = {
+        "_select_rows": lambda sx, k, v: k == ("elem", NAMES) and v == ("sub", ("sub", DATA, k), sx.P(0)),
+        "_select_cols": lambda sx, k, v: k == ("elem", sx.P(0)) and v == ("sub", S.SELF, k),
+        "_select": lambda sx, k, v: k[:1] == ("elem",) and all(x[:1] == ("sub",) and x[2] == k or S.is_call_of(x, ("glob", "eval")) and x[2][0] == k
+                                                                for x in S.alts(v)),
+    }
+    for meth, pred in specs.items():
+        sx = tctx(repo, meth)
+        got = _data_arg_contribs(sx)
+        if not got:
+            raise AnalysisError(f"Table.{meth}: the data mapping of the derived table is not a dict built here (cannot decide)")
+        for r, cs in got:
+            cols_ok = [c for c in cs if pred(sx, c[2], c[3])]
+            scalars = [c for c in cs if c[2] == scal and c[3] == ("sub", DATA, scal)]
+            guarded = [c for c in cols_ok + scalars if c[1]]
+            col.add(rule, f"Table.{meth}#columns-and-scalars", bool(cols_ok) and bool(scalars), sx.loc(r),
+                    "every listed column gets the same selection and the scalar (non-column) entries are carried over",
+                    f"{len(cols_ok)} column contributions, {len(scalars)} scalar contributions of {len(cs)}")
+            col.add(rule, f"Table.{meth}#no-column-skipped", not guarded, sx.loc(r), "no column of the list is skipped",
+                    str([[S.show(g) for _, g in c[1]] for c in guarded]))
+    sx = tctx(repo, "keys")
+    want = ("op", "-", S.fcall("set", DATA), S.fcall("set", NAMES))
+    rets = [r for r in sx.of_kind("return") if sx.pnamed("exclude_columns") in sx.conds(r.nid)]
+    col.add(rule, "Table.keys#scalars=data-minus-columns", bool(rets) and all(r.value == want for r in rets), sx.loc(sx.fn),
+            "the scalar entries are the data keys that are not columns", S.show(rets[0].value) if rets else "")
+    # repetition / concatenation along the row axis, for every column
+    sx = tctx(repo, "__mul__")
+    res = S.mcall(S.SELF, "_copy")
+    rcol = ("sub", ("attr", res, "_data"), ("elem", ("attr", res, "_col_names")))
+    st = [e for e in sx.of_kind("store") if e.target == rcol]
+    ok, facts = bool(st), ""
+    for e in st:
+        v = e.value
+        ok_v = S.is_call_of(v, ("attr", NP, "concatenate")) and len(v[2]) >= 1 and \
+            S.match(v[2][0], ("op", "*", ("list", (rcol,)), sx.P(0))) is not None
+        if not ok_v:
+            if S.is_call_of(v) and v[1][:1] == ("attr",) and v[1][1] == NP and v[1][2] in ("tile", "repeat", "resize", "hstack", "append"):
+                ok, facts = False, f"rows are repeated with np.{v[1][2]} (not along the row axis for columns with more than one dimension)"
+            elif S.is_call_of(v, ("attr", NP, "concatenate")):
+                ok_v = S.contains(v, lambda t: t == rcol)
+                ok = ok and ok_v
+                facts = S.show(v)[:100]
+            else:
+                raise AnalysisError(f"Table.__mul__: unrecognised repetition {S.show(v)[:80]} (cannot decide)")
+        if sx.conds(e.nid):
+            ok, facts = False, "conditional"
+    col.add(rule, "Table.__mul__#every-column", ok, sx.loc(sx.fn),
+            "repetition joins `num` copies of every column of the column list along the row axis (np.concatenate)", facts)
+    col.add(rule, "Table.__mul__#on-a-copy", all(r.value == res for r in sx.of_kind("return")) and bool(sx.of_kind("return")), sx.loc(sx.fn),
+            "`*` repeats a copy", "")
+    sx = tctx(repo, "_concatenate_table")
+    other = sx.P(0)
+    k = ("elem", ("attr", other, "_col_names"))
+    st = [e for e in sx.of_kind("store") if e.target == ("sub", DATA, k)]
+    want = S.fcall(("attr", NP, "concatenate"), ("list", (("sub", DATA, k), ("sub", ("attr", other, "_data"), k))))
+    want2 = S.fcall(("attr", NP, "concatenate"), ("tuple", (("sub", DATA, k), ("sub", ("attr", other, "_data"), k))))
+    col.add(rule, "Table._concatenate_table#every-column", bool(st) and all(e.value in (want, want2) and not sx.conds(e.nid) for e in st), sx.loc(sx.fn),
+            "concatenation is applied to every column of the column list, own rows first", S.show(st[0].value)[:100] if st else "")
+    sx = tctx(repo, "__add__")
+    rets = sx.of_kind("return")
+    col.add(rule, "Table.__add__#on-a-copy", bool(rets) and all(r.value == S.mcall(S.mcall(S.SELF, "_copy"), "_concatenate_table", sx.P(0)) for r in rets),
+            sx.loc(sx.fn), "`+` concatenates onto a copy of the left table", "")
+    sx = tctx(repo, "__len__")
+    rets = sx.of_kind("return")
+    ok = bool(rets) and all(S.match(r.value, S.fcall("len", ("sub", DATA, ("sub", NAMES, S.ANY)))) is not None for r in rets)
+    col.add(rule, "Table.__len__#length-of-first-column", ok, sx.loc(sx.fn), "len(table) is the length of a listed column", "")
+
+
+def _expressions(col, rule="C14.R2"):
+    repo = col.repo
+    sx = tctx(repo, "__getitem__")
+    args = sx.P(0)
+    is_str = S.fcall("isinstance", args, ("glob", "str"))
+    allowed = (("sub", DATA, args), S.fcall("eval", args, ("glob", "gblmath"), DATA))
+    rets = [r for r in sx.of_kind("return") if is_str in sx.conds(r.nid)]
+    if not rets:
+        raise AnalysisError("Table.__getitem__: no branch for a single column name / expression (cannot decide)")
+    bad = [S.show(a)[:80] for r in rets for a in S.alts(r.value) if a not in allowed]
+    col.add(rule, "Table.__getitem__#column-expression-fallback", not bad and len({a for r in rets for a in S.alts(r.value)}) == 2, sx.loc(rets[0]),
+            "a string is looked up as a column and otherwise evaluated as an expression over the *current* columns (numpy ufunc "
+            "namespace), on every access (nothing is remembered per expression)", str(bad))
+    sx = tctx(repo, "_select_cols")
+    ok = any(c[3] == ("sub", S.SELF, c[2]) for r, cs in _data_arg_contribs(sx) for c in cs)
+    col.add(rule, "Table._select_cols#expressions-via-getitem", ok, sx.loc(sx.fn),
+            "column selection evaluates each requested name/expression through table[...]", "")
 
 
 def _index_forced(col, rule="C14.R3"):
     repo = col.repo
-    for cls, meth, lst in (("Table", "_select", None), ("Table", "_select_cols", None), ("_ColView", "__getitem__", None)):
-        cx = fnctx(repo, cls, meth)
-        ins = cx.call_nodes(lambda c: isinstance(c.func, ast.Attribute) and c.func.attr == "insert" and len(c.args) == 2 and A.is_const(c.args[0], 0)
-                            and A.src(c.args[1]).endswith("._index"))
+    for cls, meth, idx in (("Table", "_select", INDEX), ("Table", "_select_cols", INDEX), ("_ColView", "__getitem__", ("attr", S.sattr("table"), "_index"))):
+        sx = tctx(repo, meth, cls)
+        ins = sx.calls_some(("call", ("attr", S.V("l"), "insert"), (("const", "0"), idx), ()))
         ok = len(ins) == 1
         if ok:
-            c = cx.calls_at(ins[0])[0]
-            lname = A.dotted(c.func.value)
-            def notin(t):
-                for a in (t.values if isinstance(t, ast.BoolOp) else [t]):
-                    p = A.compare_parts(a)
-                    if p and isinstance(p[1], ast.NotIn) and A.src(p[0]).endswith("._index") and A.dotted(p[2]) == lname:
-                        return True
-                return False
-            ok = has_guard(cx.cfg, ins[0], "T", notin)
-        col.add(rule, f"{cls}.{meth}#index-column-forced", ok, cx.loc(cx.fn),
+            ev, m = ins[0]
+            ok = any(c[:1] == ("cmp",) and c[1] == "not in" and c[2] == idx and (c[3] == m["l"] or S.alts(c[3]) == S.alts(m["l"])) for c in sx.conds(ev.nid))
+            extra = [c for c in sx.conds(ev.nid) if not (c[:1] == ("cmp",) and c[1] == "not in") and c != ("cmp", "is not", idx, ("const", "None"))]
+            ok = ok and not extra
+        col.add(rule, f"{cls}.{meth}#index-column-forced", ok, sx.loc(sx.fn),
                 "the index column is inserted into the derived column list whenever it is missing from it", "")
-    cx = fnctx(repo, "Table", "_select_cols")
-    ok = not A.has_fragments(cx.fn, ["{L}[self._index] = self._data[self._index]"])
-    col.add(rule, "Table._select_cols#index-data-carried", ok, cx.loc(cx.fn), "the index column's data accompanies the forced index column", "")
+    sx = tctx(repo, "_select_cols")
+    ok = any(c[2] == INDEX and c[3] == ("sub", DATA, INDEX) for r, cs in _data_arg_contribs(sx) for c in cs)
+    col.add(rule, "Table._select_cols#index-data-carried", ok, sx.loc(sx.fn), "the index column's data accompanies the forced index column", "")
     for meth in ("_select", "_select_rows", "_select_cols", "_copy"):
-        fn = repo.method("Table", meth)
-        ok = any(any(k.arg == "index" and A.src(k.value) == "self._index" for k in c.keywords) for c in A.calls(fn))
-        col.add(rule, f"Table.{meth}#same-index", ok, repo.cls("Table").module.loc(fn), "a derived table keeps the source's index column name", "")
+        sx = tctx(repo, meth)
+        calls = _ctor_calls(sx)
+        ok = bool(calls) and all(dict(a[3]).get("index") == INDEX for ev, a in calls)
+        col.add(rule, f"Table.{meth}#same-index", ok, sx.loc(sx.fn), "a derived table keeps the source's index column name", "")
 
 
 def _checked_ctor(col, rule="C14.R6"):
     repo = col.repo
-    cx = fnctx(repo, "Table", "__init__")
-    cfg = cx.cfg
-    raises = [n for n in cfg.nodes.values() if n.kind == "stmt" and isinstance(n.ast, ast.Raise)]
-    def verify_guard(nid):
-        return has_guard(cfg, nid, "T", lambda t: A.dotted(t) == "verify")
-    # index presence against the column list
-    idx = [r for r in raises if "Index column" in A.src(r.ast)]
-    ok = len(idx) == 1 and verify_guard(idx[0].id)
-    facts = ""
+    sx = tctx(repo, "__init__")
+    verify = sx.pnamed("verify")
+    index = sx.pnamed("index")
+    raises = sx.of_kind("raise")
+
+    def msg(r):
+        return S.show(r.value) if r.value is not None else ""
+    idx = [r for r in raises if "Index column" in msg(r)]
+    ok, facts = len(idx) == 1 and verify in sx.conds(idx[0].nid), ""
     if ok:
         ok = False
-        for g in cfg.guards(idx[0].id):
-            if g.kind == "T":
-                for a in (g.ast.values if isinstance(g.ast, ast.BoolOp) else [g.ast]):
-                    p = A.compare_parts(a)
-                    if p and isinstance(p[1], ast.NotIn) and A.dotted(p[0]) == "index":
-                        facts = A.src(a)
-                        tgt = cx.resolve(p[2], idx[0].id)
-                        ok = A.dotted(p[2]) not in ("data", "_data") and ("col_names" in A.src(p[2]))
-    col.add(rule, "Table.__init__#index-among-columns", ok, cx.loc(idx[0].id) if idx else cx.loc(cx.fn),
+        for c in sx.conds(idx[0].nid):
+            if c[:1] == ("cmp",) and c[1] == "not in" and c[2] == index:
+                facts = S.show(c)[:100]
+                cont = c[3]
+                ok = all(a[:1] == ("acc",) and a[1] == "list" or S.is_call_of(a, ("glob", "list")) for a in S.alts(cont)) and \
+                    not any(a == sx.pnamed("data") for a in S.alts(cont))
+    col.add(rule, "Table.__init__#index-among-columns", ok, sx.loc(idx[0]) if idx else sx.loc(sx.fn),
             "the checked constructor rejects an index that is not in the *column list* (an entry of the data mapping that is not a "
             "listed column does not count)", facts)
-    ln = [r for r in raises if "different lengths" in A.src(r.ast)]
-    ok = len(ln) == 1 and verify_guard(ln[0].id)
+    ln = [r for r in raises if "different lengths" in msg(r)]
+    ok = len(ln) == 1 and verify in sx.conds(ln[0].nid)
     if ok:
-        ok = not A.has_fragments(cx.fn, ["set((len({L}[{L}]) for {L} in {L}))"]) and \
-            has_guard(cfg, ln[0].id, "T", lambda t: A.compare_parts(t) is not None and isinstance(A.compare_parts(t)[1], ast.Gt) and A.is_const(A.compare_parts(t)[2], 1))
-    col.add(rule, "Table.__init__#equal-lengths", ok, cx.loc(ln[0].id) if ln else cx.loc(cx.fn),
+        ok = False
+        for c in sx.conds(ln[0].nid):
+            m = S.match(c, ("cmp", ">", S.fcall("len", S.V("s")), ("const", "1")))
+            if m is not None:
+                s_ = m["s"]
+                inner = s_[2][0] if S.is_call_of(s_, ("glob", "set")) and s_[2] else s_
+                ok = inner[:1] == ("acc",) and any(S.is_call_of(cc[2], ("glob", "len")) for cc in inner[2] if cc[0] == "one")
+    col.add(rule, "Table.__init__#equal-lengths", ok, sx.loc(ln[0]) if ln else sx.loc(sx.fn),
             "the checked constructor rejects columns of different lengths (set of lengths over the column list has more than one element)", "")
-    arr = [r for r in raises if "not a numpy array" in A.src(r.ast)]
-    col.add(rule, "Table.__init__#columns-are-arrays", len(arr) == 1 and verify_guard(arr[0].id), cx.loc(cx.fn),
+    arr = [r for r in raises if "not a numpy array" in msg(r)]
+    col.add(rule, "Table.__init__#columns-are-arrays", len(arr) == 1 and verify in sx.conds(arr[0].nid), sx.loc(sx.fn),
             "every listed column must be a numpy array", "")
-    # every listed column is looked up in data (KeyError if absent)
-    ok = not A.has_fragments(cx.fn, ["{L} = {P1}[{L}]"])
-    col.add(rule, "Table.__init__#listed-columns-present", ok, cx.loc(cx.fn), "every listed column is fetched from the data mapping", "")
-    dflt = A.param_defaults(cx.fn).get("verify")
-    col.add(rule, "Table.__init__#verify-by-default", A.is_const(dflt, True), cx.loc(cx.fn), "the constructor checks by default", A.src(dflt))
-    # _t / concatenate go through the checked constructor
-    for meth in ("_t", "concatenate", "_copy"):
-        fn = repo.method("Table", meth)
-        calls = [c for c in A.calls(fn) if A.call_name(c) in ("Table", "cls", "self.__class__")]
-        ok = len(calls) == 1 and not any(k.arg == "verify" for k in calls[0].keywords)
-        col.add(rule, f"Table.{meth}#through-checked-constructor", ok, repo.cls("Table").module.loc(fn),
-                f"{meth} builds its result with the checked constructor", "")
+    fn = repo.method("Table", "__init__")
+    dflt = A.param_defaults(fn).get("verify")
+    col.add(rule, "Table.__init__#verify-by-default", A.is_const(dflt, True), sx.loc(sx.fn), "the constructor checks by default", A.src(dflt))
+    for meth in ("_t", "concatenate"):
+        msx = tctx(repo, meth)
+        calls = _ctor_calls(msx)
+        ok = len(calls) == 1 and dict(calls[0][1][3]).get("verify") in (None, ("const", "True"))
+        col.add(rule, f"Table.{meth}#through-checked-constructor", ok, msx.loc(msx.fn), f"{meth} builds its result with the checked constructor", "")
 
 
 def _attrs(col, rule="C14.R4"):
@@ -208,7 +312,6 @@ def _attrs(col, rule="C14.R4"):
         known = set(c.methods) | set(c.properties) | set(c.consts) | set(c.setters)
         for b in repo.mro(c)[1:]:
             known |= set(b.methods) | set(b.consts)
-        dynamic_getattr = "__getattr__" in c.methods
         for fn in c.methods.values():
             for n in A.walk(fn):
                 if isinstance(n, (ast.Assign, ast.AugAssign, ast.AnnAssign)):
@@ -248,56 +351,39 @@ def _attrs(col, rule="C14.R4"):
                 col.ok(rule, f"{c}.{f}#attributes-exist", m.loc(fn), "every self.<attr> read in this derivation method is declared", "")
 
 
+def _rooted_in_source(t) -> bool:
+    """term is (part of) the source table's column list or data mapping"""
+    roots = (NAMES, DATA, ("attr", S.sattr("table"), "_col_names"), ("attr", S.sattr("table"), "_data"))
+    while True:
+        if t in roots:
+            return True
+        if t[:1] == ("sub",):
+            t = t[1]
+            continue
+        return False
+
+
 def _no_source_mutation(col, rule="C14.R5"):
     repo = col.repo
-    m = repo.module("table")
     for c, f in DERIVATIONS:
         if not repo.has_method(c, f):
             continue
-        fn = repo.method(c, f)
+        sx = tctx(repo, f, c)
         bad = []
-        roots = ("self._col_names", "self._data", "self.table._col_names", "self.table._data")
-        for n in A.walk(fn):
-            if isinstance(n, ast.Call) and isinstance(n.func, ast.Attribute) and n.func.attr in MUTATORS:
-                r = A.dotted(n.func.value)
-                if r in roots:
-                    bad.append(A.src(n))
-            targets = []
-            if isinstance(n, ast.Assign):
-                targets = n.targets
-            elif isinstance(n, ast.AugAssign):
-                targets = [n.target]
-            elif isinstance(n, ast.Delete):
-                targets = n.targets
-            for t in targets:
-                base = t
-                while isinstance(base, ast.Subscript):
-                    base = base.value
-                    if A.dotted(base) in roots:
-                        bad.append(A.src(n)[:60])
-                        break
-                if isinstance(t, ast.Attribute) and A.dotted(t) in roots:
-                    bad.append(A.src(n)[:60])
-        # aliases of the source's column list mutated in place
-        for n in A.walk(fn):
-            if isinstance(n, ast.Assign) and len(n.targets) == 1 and isinstance(n.targets[0], ast.Name) and A.dotted(n.value) in roots:
-                al = n.targets[0].id
-                for x in A.walk(fn):
-                    if isinstance(x, ast.Call) and isinstance(x.func, ast.Attribute) and x.func.attr in MUTATORS and A.dotted(x.func.value) == al:
-                        bad.append(f"{al} = {A.src(n.value)}; {A.src(x)}")
-        col.add(rule, f"{c}.{f}#source-not-mutated", not bad, m.loc(fn),
+        for ev in sx.events:
+            if ev.kind == "call":
+                for a in S.alts(ev.term):
+                    if a[1][:1] == ("attr",) and a[1][2] in MUTATORS and any(x in (NAMES, DATA, ("attr", S.sattr("table"), "_col_names"),
+                                                                                    ("attr", S.sattr("table"), "_data")) for x in S.alts(a[1][1])):
+                        bad.append(S.show(a)[:70])
+            elif ev.kind in ("store", "del"):
+                for t in S.alts(ev.target):
+                    if t[:1] == ("sub",) and any(_rooted_in_source(x) for x in S.alts(t[1])):
+                        bad.append(("del " if ev.kind == "del" else "") + S.show(t)[:70])
+                    if t in (NAMES, DATA):
+                        bad.append(S.show(t))
+        col.add(rule, f"{c}.{f}#source-not-mutated", not bad, sx.loc(sx.fn),
                 "a derivation never mutates the source's column list or data mapping (directly or through an alias)", str(bad))
-
-
-def _expressions(col, rule="C14.R2"):
-    repo = col.repo
-    cx = fnctx(repo, "Table", "__getitem__")
-    ok = not A.has_fragments(cx.fn, ["return self._data[{P1}]", "return eval({P1}, gblmath, self._data)"])
-    col.add(rule, "Table.__getitem__#column-expression-fallback", ok, cx.loc(cx.fn),
-            "a string that is not a column name is evaluated as an expression over the columns (numpy ufunc namespace)", "")
-    cx = fnctx(repo, "Table", "_select_cols")
-    col.add(rule, "Table._select_cols#expressions-via-getitem", not A.has_fragments(cx.fn, ["self[{L}]"]), cx.loc(cx.fn),
-            "column selection evaluates each requested name/expression through table[...]", "")
 
 
 def check(col: Collector):
